@@ -86,6 +86,9 @@ def check_config(ctx, F, cfg):
     tag = "" if cfg == "native" else "@" + cfg
     ty = st["ty"]
     is_atomic = ty.get("def") in ("std::sync::atomic::Atomic",) and ty.get("args") and ty["args"][0] in UINTS
+    wide = bool(ty.get("args")) and ty["args"][0] in ("usize", "u64", "u128")
+    ctx.ob("C20.R1.counter-cannot-wrap", COUNTER + tag, where, wide, "item-structure",
+           "counter type %s: fetch_add wraps silently, so the counter must be at least 64 bits wide for its values to be distinct within a process" % ty["s"])
     ctx.ob("C20.R1.static-atomic", COUNTER + tag, where, (not st["mut"]) and is_atomic, "item-structure",
            "static %s: mut=%s type=%s; must be a non-mut atomic unsigned integer" % (COUNTER, st["mut"], ty["s"]))
 
